@@ -172,8 +172,12 @@ def shadow_apply(rows, op):
             rows[i] = list(v[1])
         return rows
     if k == "SetRows":
-        idxs = _selrows(rows, op[1])
         v = op[2]
+        if v[0] == "rows":      # numpy matches the number of rows before it bounds-checks the indices
+            cnt = len(_sl(op[1][1:], len(rows))) if op[1][0] == "sl" else len(op[1][1])
+            if len(v[1]) != cnt and len(v[1]) != 1:
+                raise Rej("Reject")
+        idxs = _selrows(rows, op[1])
         if v[0] == "s":
             if _rect(rows):
                 for i in idxs:
